@@ -12,6 +12,46 @@ var fuzzTokens = []string{"##!", "##!>", "##!<", "##!=>", "##!=<", "##!+", "##!^
 	"\\", "\\\\", "\"", "\\\"", "'", "^", "$", ".", "\\s", "\\d", "\\x5c", "\\x{e9}", "a", "b", "foo", "A", "0", "é", "\xff", "\xc3", "\x00", "\x01", "\x0b", "\x7f", "-", "a-z", "i", "s", "x",
 	"\\t\\n\\f\\r ", "[\\s", "[\\t\\n\\f\\r -~]", "(?P<n>", "(?<n>", "\\Q", "\\E", "\\pL", "[[:alpha:]]", "\\b", "\\z"}
 
+// short lines for the inside of blocks: escapes and markers at the very start and end of a line
+var lineTokens = []string{"\\", "\\", "\\\\", "@", "~", "\\@", "\\~", "'", "a", "x", "foo", ".", "-", " ", "_", "\xff", "é", "(", ")", "[", "|", "{{", "}}", "\"", "?", "*"}
+
+// genFuzzBlocks: line-structured fuzz. Most lines are well-formed block directives, so the text really is inside
+// cmdline and assemble blocks (token soup almost never spells a block start); the entries are one to four tokens.
+func genFuzzBlocks(r *rand.Rand, maxLines int) string {
+	n := 1 + r.Intn(maxLines)
+	var sb strings.Builder
+	depth := 0
+	for i := 0; i < n; i++ {
+		switch k := r.Intn(12); {
+		case k == 0:
+			sb.WriteString("##!> cmdline " + pick(r, []string{"unix", "windows"}) + "\n")
+			depth++
+		case k == 1:
+			sb.WriteString("##!> assemble\n")
+			depth++
+		case k == 2 && depth > 0:
+			sb.WriteString("##!<\n")
+			depth--
+		case k == 3:
+			sb.WriteString(pick(r, []string{"##!=>\n", "##!=< n\n", "##!=> n\n", "##!^ p\n", "##!$ s\n"}))
+		case k == 4:
+			sb.WriteString(genFuzzText(r, 6) + "\n")
+		default:
+			for j, m := 0, 1+r.Intn(4); j < m; j++ {
+				sb.WriteString(pick(r, lineTokens))
+			}
+			sb.WriteString(pick(r, []string{"\n", "\n", "\n", "\r\n", ""}))
+			if chance(r, 0.02) {
+				return sb.String() // ends inside whatever is open, possibly without a final newline
+			}
+		}
+	}
+	for ; depth > 0 && chance(r, 0.9); depth-- {
+		sb.WriteString("##!<\n")
+	}
+	return sb.String()
+}
+
 func genFuzzText(r *rand.Rand, maxTokens int) string {
 	n := 1 + r.Intn(maxTokens)
 	var sb strings.Builder
@@ -64,7 +104,8 @@ func genC19(r *rand.Rand, tier string, env *Env) []Case {
 	}
 	var cases []Case
 	empty := [][]byte{{}, {}, {}, {}, {}, {}}
-	for _, w := range []string{"a\\(?i:foo\n", "(a\\(?i)b\n", "\\(?i:", "(?i:", "(?i:a", "x(?s:.)(?i)y\n", "((?i:a)|b)\n", "(?:a\n", "a)\n", "\\", "(?:\\)\n", "[(?i:]\n", "##!<", "##!=>", "##!=< \n", "##!> cmdline\n", "##!> include\n", "##!> include inc1 -- a\n"} {
+	for _, w := range []string{"a\\(?i:foo\n", "(a\\(?i)b\n", "\\(?i:", "(?i:", "(?i:a", "x(?s:.)(?i)y\n", "((?i:a)|b)\n", "(?:a\n", "a)\n", "\\", "(?:\\)\n", "[(?i:]\n", "##!<", "##!=>", "##!=< \n", "##!> cmdline\n", "##!> include\n", "##!> include inc1 -- a\n",
+		"##!> cmdline unix\n\\@\n##!<\n", "##!> cmdline windows\n\\~\n##!<\n", "##!> cmdline unix\n\\\\\n##!<\n", "##!> cmdline unix\n\\\\\\x\n##!<\n", "##!> cmdline unix\n\\\n@\n~\n'\n##!<\n"} {
 		args := append(append([][]byte{}, empty...), []byte(w))
 		cases = append(cases, Case{Kind: "fixed", Ops: []Op{{"gen.run", args}, {"pass.cleanUp", [][]byte{[]byte(w)}}}, Oracles: []Op{{"c19.nocrash", args}, {"c19.cli", args}}})
 	}
@@ -80,14 +121,25 @@ func genC19(r *rand.Rand, tier string, env *Env) []Case {
 	}
 	for i := 0; i < nFuzz; i++ {
 		input := genFuzzText(r, maxTok)
+		kind := "token-fuzz"
+		if i%3 == 2 {
+			input, kind = genFuzzBlocks(r, 4+maxTok/4), "line-fuzz"
+			if chance(r, 0.3) {
+				input += "##!> include inc1\n"
+			}
+		}
 		args := append(append([][]byte{}, empty...), []byte(input))
 		if chance(r, 0.4) {
 			// fuzz text in an include file as well
-			args = append(args, []byte("i"), []byte("inc1.ra"), []byte(genFuzzText(r, maxTok/2)))
+			inc := genFuzzText(r, maxTok/2)
+			if kind == "line-fuzz" {
+				inc = genFuzzBlocks(r, 2+maxTok/8)
+			}
+			args = append(args, []byte("i"), []byte("inc1.ra"), []byte(inc))
 		}
-		c := Case{Kind: "token-fuzz", Ops: []Op{{"gen.run", args}}, Oracles: []Op{{"c19.nocrash", args}}}
+		c := Case{Kind: kind, Ops: []Op{{"gen.run", args}}, Oracles: []Op{{"c19.nocrash", args}}}
 		if i < nCli {
-			c.Kind = "token-fuzz+cli"
+			c.Kind = kind + "+cli"
 			c.Oracles = append(c.Oracles, Op{"c19.cli", args})
 		}
 		// the clean-up passes alone on the same text: model and code agree on the fault class of every text
@@ -103,7 +155,7 @@ func init() {
 	properties["C19"] = &Property{
 		ID: "C19", LeanMods: []string{"CrsProps.C19"},
 		Corr: "K2 (parser.Parse), K3 (clean-up passes on arbitrary text: same fault class in model and code), K5 (Operator.Run end to end, real rassemble.Join answers fed to the model; every Join result monitored for the EngineShape assumption)",
-		Rule: "token-level fuzz: 1..40 (quick) / 1..600 (thorough) tokens from directive fragments, regex metacharacters, escapes (incl. escaped parentheses before `?i:`), braces, quotes, control and non-ASCII bytes, on stdin and in an include file; plus programs from the tree grammar with 20% structural faults; non-trivial = text of at least two tokens; distinct by bytes",
+		Rule: "token-level fuzz: 1..40 (quick) / 1..600 (thorough) tokens from directive fragments, regex metacharacters, escapes (incl. escaped parentheses before `?i:`), braces, quotes, control and non-ASCII bytes, on stdin and in an include file; every third text is line-structured (well-formed cmdline/assemble block starts and ends around entries of one to four escape/marker tokens, so that lines like a lone `\\@` occur inside blocks and include files); plus programs from the tree grammar with 20% structural faults; non-trivial = text of at least two tokens; distinct by bytes",
 		Gen:  genC19, Escalate: escalatePassText("c19.nocrash", "c19.cli"),
 		Assume: []string{"EngineShape (hypothesis of C19_generate_no_runtime_fault): rassemble.Join prints balanced text and answers every query — monitored on every Join result of the run",
 			"termination: the model is total; fuel parameters (include depth 40, loop bounds 2·len+2) are not reached on generated inputs (a cyclic include ends with a diagnostic in the code as well: file descriptors run out)"},
